@@ -249,6 +249,8 @@ CIRCUITS = {
     "noisy-detect": "H 0\nT 0\nH 0\nCX 0 1\nX_ERROR(0.3) 1\nZ_ERROR(0.2) 0\nM 0 1\nDETECTOR rec[-2]\nDETECTOR rec[-1]\nOBSERVABLE_INCLUDE(0) rec[-1] rec[-2]",
     "noiseless": "H 0\nCX 0 1\nH 2\nM 0 1 2",
     "probs": "H 0\nCX 0 1\nX_ERROR(0.3) 1\nDEPOLARIZE1(0.2) 0\nM 0 1",
+    # three components with several outputs each (the order in which components are sampled must not matter for key freshness)
+    "multi-component": "H 0\nCX 0 1\nH 2\nCX 2 3\nCX 3 4\nH 5\nT 5\nCX 5 6\nX_ERROR(0.25) 0\nM 0 1 2 3 4 5 6",
     "three-channels": "H 0\nX_ERROR(0.2) 0\nH 1\nZ_ERROR(0.3) 1\nH 1\nH 2\nY_ERROR(0.1) 2\nT 2\nH 2\nM 0 1 2",
 }
 
@@ -362,8 +364,8 @@ def run(ctx: Ctx) -> int:
 
     # ================================================================== 1. key logs of generated histories
     plan = [("measurement", "noisy-measure"), ("detector", "noisy-detect"), ("probs", "probs"), ("measurement", "noiseless"),
-            ("measurement", "three-channels")]
-    plan += [("measurement", "noisy-measure"), ("detector", "noisy-detect"), ("probs", "probs"), ("measurement", "three-channels")]
+            ("measurement", "three-channels"), ("measurement", "multi-component")]
+    plan += [("measurement", "multi-component"), ("measurement", "noisy-measure"), ("detector", "noisy-detect"), ("probs", "probs"), ("measurement", "three-channels")]
     if not quick:
         plan = plan * 4
     cases = []
